@@ -359,14 +359,19 @@ def _shard(args) -> dict:
     viol: list = []
     counts: Counter = Counter()
     kept: list = []
+    n_nt = n_tr = 0
     for ln in r.prints:
         if not ln.startswith('<<"CASE", '):
             continue
         rec = parse_prints([ln])[0][1]
         n += 1
-        cases.append((hashlib.sha1(ln.encode()).hexdigest()[:16], nontrivial(rec)))
-        if len(kept) < keep and n % 13 == 1:  # a spread-out sample for the binding self-test and the evidence
+        nt = nontrivial(rec)
+        cases.append((hashlib.sha1(ln.encode()).hexdigest()[:16], nt))
+        # a spread-out sample for the binding self-test and the evidence: mostly non-trivial cases, a few trivial ones
+        if keep and ((nt and n_nt % 7 == 0 and len(kept) < keep) or (not nt and n_tr < 10)):
             kept.append(rec)
+        n_nt += nt
+        n_tr += not nt
         for sig, what, obs in check_case(rec, sl.pandas):
             k = json.dumps(sig, sort_keys=True)
             counts[k] += 1
